@@ -268,7 +268,8 @@ def check(prop, tier, seed, replay):
             import check_sys
             sysdesign = check_sys.design_level(work, tier)
             log("design level: Gorums.tla (%s): %d distinct states, invariants hold" % (sysdesign["config"], sysdesign["states"]))
-            syscov, sysbad = check_sys.phase(prop, tier, seed, work, reported)
+            # C07: with servers crashing and restarting at random while the workload runs
+            syscov, sysbad = check_sys.phase(prop, tier, seed, work, reported, faults=(prop == "C07"))
             syscov["design_level"] = sysdesign
             accepted += syscov["accepted"]
         violations = len(reported)
